@@ -412,7 +412,14 @@ func genForeign(r *rng) *foreignPkg {
 				continue
 			}
 			fn := map[string]string{"default": "1", "first": "first", "even": "even"}[typ]
-			if r.chance(30) {
+			if r.chance(15) {
+				// a name the library uses for another kind (Word numbers its header parts as it likes: header1.xml may
+				// well be the first-page header)
+				fn = map[string]string{"default": "even", "first": "1", "even": "1"}[typ]
+				if _, dup := f.Extra["word/"+kind+fn+".xml"]; dup {
+					continue
+				}
+			} else if r.chance(30) {
 				fn = fmt.Sprintf("%d", r.rangeI(2, 4)) // header2.xml: a name the library does not use
 				if _, dup := f.Extra["word/"+kind+fn+".xml"]; dup {
 					continue
@@ -441,6 +448,15 @@ func genForeign(r *rng) *foreignPkg {
 				f.Extra["word/_rels/"+kind+fn+".xml.rels"] = `<?xml version="1.0"?><Relationships xmlns="http://schemas.openxmlformats.org/package/2006/relationships"><Relationship Id="rId1" Type="` + relBase + `image" Target="` + strings.TrimPrefix(logo, "word/") + `"/></Relationships>`
 			}
 		}
+	}
+	// one relationship used by two references (the same header for default and even pages, say)
+	if len(f.HRefs) == 1 && r.chance(35) {
+		other := map[string]string{"default": "even", "first": "default", "even": "first"}[f.HRefs[0][0]]
+		f.HRefs = append(f.HRefs, [2]string{other, f.HRefs[0][1]})
+	}
+	if len(f.FRefs) == 1 && r.chance(35) {
+		other := map[string]string{"default": "even", "first": "default", "even": "first"}[f.FRefs[0][0]]
+		f.FRefs = append(f.FRefs, [2]string{other, f.FRefs[0][1]})
 	}
 	// package-absolute targets: all relationships of the package (some producers write only those), or some
 	absAll := r.chance(10)
